@@ -213,15 +213,17 @@ def evaluate(case: dict[str, Any]) -> Outcome:
                 for key, regs in got[w].items():
                     if not regs:
                         out.fail(f"offered-generator-not-in-table|{w}", f"{key} offered for {typ!r} but registered under no type")
-                    for k in regs:
-                        n_eval += 1
-                        if not ts.is_maybe_subtype.__wrapped__(ts, k, typ):
-                            if all(not ts.is_maybe_subtype.__wrapped__(ts, k2, typ) for k2 in regs):
-                                tags = ty.blame(ts, typ, k) if w == "rank" else ["random-provider"]
-                                for tag in tags:
-                                    out.fail(f"offered-not-maybe-subtype|{w}|{tag}",
-                                             f"{key} registered under {k!r} is offered for {typ!r} but is_maybe_subtype({k!r}, {typ!r}) is False")
-                            break
+                    n_eval += len(regs)
+                    if not regs or any(ts.is_maybe_subtype.__wrapped__(ts, k, typ) for k in regs):
+                        continue
+                    if w == "rank":
+                        bad = [k for k in regs if ts.subtype_distance.__wrapped__(ts, typ, k) is not None]
+                        tags = sorted({t for k in bad for t in ty.blame(ts, typ, k)}) or ["no-registered-type-has-a-distance"]
+                    else:
+                        tags = ["random-provider"]
+                    for tag in tags:
+                        out.fail(f"offered-not-maybe-subtype|{w}|{tag}",
+                                 f"{key} registered under {regs!r} is offered for {typ!r} but is_maybe_subtype(<registered type>, {typ!r}) is False")
             if len(got) < 2:
                 return
             # (b) both providers offer the same set
